@@ -367,10 +367,11 @@ fn run_inner(plan: &Plan, apps: &Apps, mode: u8, deny: bool, script: Option<(u32
             Err(p) => {
                 let msg = panic_message(&p);
                 sim::masked(|| drop(p));
-                // the panic machinery itself allocates: this window is not measured
-                let _ = (allocs, declared);
+                // the panic machinery itself allocates: this window is not compared with what
+                // the user code declared, only with the same window of the direct-call twin
+                let _ = declared;
                 sim::record(Ev::PollEnd { task: t as u8, ready: false, leaf_pendings, allocs: u32::MAX, declared: u32::MAX });
-                sim::record(Ev::Panicked { task: t as u8 });
+                sim::record(Ev::Panicked { task: t as u8, allocs });
                 if msg != INJECTED && foreign_panic.is_none() {
                     *foreign_panic = Some(msg);
                 }
